@@ -131,7 +131,8 @@ def gen_cases(chk):
     cases = []
 
     def add(mode, ls, ns, int_n=None, use_default=False, tag="", **kw):
-        c = {"mode": mode, "ls": ls, "ns": ns, "tag": tag, "base_nlive": ns[0] if ns else 1,
+        sp = {"logt": ["logt", "logt", "LogT", "LOGT", "logT"], "t": ["t", "t", "T"]}[mode]
+        c = {"mode": mode, "spelling": sp[(len(cases) + len(ls)) % len(sp)], "ls": ls, "ns": ns, "tag": tag, "base_nlive": ns[0] if ns else 1,
              "use_default": use_default}
         if int_n:
             c["int_nlive"] = int_n
